@@ -32,7 +32,7 @@ pub fn run(suite: &str, ctx: &mut Ctx) {
     }
 }
 
-pub struct GenOpts { pub max_frames: usize, pub newer: bool }
+pub struct GenOpts { pub max_frames: usize, pub newer: bool, pub force: Option<V> }
 
 /// a well-formed history; `k` walks the version classes, port shapes and container shapes systematically
 pub fn gen_replay(rng: &mut Rng, k: usize, o: &GenOpts) -> (Replay, Vec<String>) {
@@ -40,6 +40,7 @@ pub fn gen_replay(rng: &mut Rng, k: usize, o: &GenOpts) -> (Replay, Vec<String>)
     let mut v = if k < 2 * classes.len() { classes[k % classes.len()] } else if rng.next() % 4 == 0 { classes[(rng.next() as usize) % classes.len()] } else { ((rng.next() % 4) as u8, (rng.next() % 20) as u8, (rng.next() >> 9) as u8) };
     if v > MAXV && !o.newer { v = (3, 16, 0); }
     if o.newer { v = NEWER[k % NEWER.len()]; }
+    if let Some(f) = o.force { v = f; }
     if v == (0, 0, v.2) { v = (0, 1, v.2); }
     let mut pl = vec![];
     // port subsets: walk all 16 subsets, ICs flags at random
@@ -57,7 +58,7 @@ pub fn gen_replay(rng: &mut Rng, k: usize, o: &GenOpts) -> (Replay, Vec<String>)
     let shape = if k % 2 == 0 { (k / 2) % 6 } else { (rng.next() % 6) as usize };
     match shape { 0 => r.end = None, 1 => r.metadata = None, 2 => r.double_end = true, 3 => { r.end = None; r.metadata = None; } _ => {} }
     if let Some(e) = r.end.as_mut() { e[0] = [0u8, 1, 2, 3, 7][(rng.next() % 5) as usize]; if e.len() >= 2 { e[1] = [255u8, 0, 1, 2, 3][(rng.next() % 5) as usize]; } if e.len() >= 6 { for j in 2..6 { e[j] = [255u8, 0, 1, 2, 3][(rng.next() % 5) as usize]; } } }
-    if gte(v,3,3) && rng.next() % 2 == 0 { let nb = 1 + (rng.next() % 3) as usize; let actual = (nb as u32 - 1) * 512 + 1 + (rng.next() % 512) as u32; r.gecko = Some((rng.bytes(512 * nb), actual)); }
+    if gte(v,3,3) && rng.next() % 2 == 0 { let nb = 1 + (rng.next() % 3) as usize; let last = match rng.next() % 6 { 0 => 512, 1 => 1, 2 => 511, _ => 1 + (rng.next() % 512) as u32 }; let actual = (nb as u32 - 1) * 512 + last; r.gecko = Some((rng.bytes(512 * nb), actual)); }
     if rng.next() % 3 == 0 { let mut m = vec![]; gen_tree(rng, 1, &mut m); r.metadata = r.metadata.map(|_| m); }
     let tags = vec![format!("v{}.{}", v.0, v.1), format!("ports{}", pl.len()), format!("slots{}", nslots), format!("frames{}", r.frames.len().min(9)), format!("absent{}", absent.len().min(5)),
         format!("shape{}", shape), format!("gecko{}", r.gecko.is_some() as u8), format!("regime{}", if gte(v,3,0) { "A" } else if gte(v,2,2) { "B" } else { "C" })];
@@ -144,6 +145,24 @@ pub fn check_row_view(g: &Game, c: &mut Case) {
     }
 }
 
+/// the external Shift-JIS decoder's verdict on the name fields of the file's Game Start block (all four ports, as the
+/// reader decodes them), located through the payload table; `true` when the block cannot be located or is too short
+pub fn sjis_verdict(b: &[u8]) -> bool {
+    let get = |i: usize| b.get(i).copied();
+    if get(15) != Some(0x35) { return true; }
+    let tl = match get(16) { Some(x) if x >= 1 => x as usize - 1, _ => return true };
+    let mut size = None; let mut i = 17; while i + 3 <= 17 + tl { if get(i) == Some(0x36) { if let (Some(a), Some(c)) = (get(i + 1), get(i + 2)) { size = Some(((a as usize) << 8) | c as usize); } } i += 3; }
+    let st = 17 + tl; if get(st) != Some(0x36) { return true; }
+    let size = match size { Some(s) => s, None => return true };
+    let blk = match b.get(st + 1..st + 1 + size) { Some(x) => x, None => return true };
+    let mut ok = true;
+    for p in 0..4 { if blk.len() >= 416 { ok &= sjis(until_nul(&blk[352 + 16 * p..352 + 16 * p + 16])).is_some(); }
+        if blk.len() >= 584 { ok &= sjis(until_nul(&blk[420 + 31 * p..420 + 31 * p + 31])).is_some() && sjis(until_nul(&blk[544 + 10 * p..544 + 10 * p + 10])).is_some(); } }
+    ok
+}
+/// the driver line for a `read`: the decoder verdict travels with the case when it is negative
+pub fn read_cmd(skip: bool, hash: bool, b: &[u8]) -> String { if sjis_verdict(b) { format!("read {} {} {}", skip as u8, hash as u8, hex(b)) } else { format!("read {} {} sj0 {}", skip as u8, hash as u8, hex(b)) } }
+
 pub fn read_opts(skip: bool, hash: bool) -> slippi::de::Opts { slippi::de::Opts { skip_frames: skip, compute_hash: hash, ..Default::default() } }
 
 /// the canonical `read` result line; the summary is computed inside the catch
@@ -161,14 +180,14 @@ pub fn write_slp(g: &Game) -> Result<Vec<u8>, String> {
 }
 
 fn read(rng: &mut Rng, ctx: &mut Ctx) {
-    let go = GenOpts { max_frames: if ctx.thorough { 40 } else { 9 }, newer: false };
+    let go = GenOpts { max_frames: if ctx.thorough { 40 } else { 9 }, newer: false, force: None };
     for k in 0..ctx.n {
         let (r, tags) = gen_replay(rng, k, &go);
         let b = encode(&r);
         let hash = k % 3 == 0;
         // full read
         let (line, g) = read_line(&b, false, hash);
-        let mut c = Case::new(format!("read 0 {} {}", hash as u8, hex(&b)), line.clone()); c.tags = tags.clone(); c.tags.push(format!("hash{}", hash as u8));
+        let mut c = Case::new(read_cmd(false, hash, &b), line.clone()); c.tags = tags.clone(); c.tags.push(format!("hash{}", hash as u8));
         let xx = format!("xxh3:{:016x}", xxhash_rust::xxh3::xxh3_64(&b));
         match &g { None => { for p in ["C01", "C04"] { c.fail(p, format!("well-formed replay rejected: {}", line)); } }
             Some(g) => {
@@ -184,7 +203,7 @@ fn read(rng: &mut Rng, ctx: &mut Ctx) {
         // skip-frames read of finished replays
         if r.end.is_some() && k % 2 == 0 {
             let (sl, gs) = read_line(&b, true, hash);
-            let mut c = Case::new(format!("read 1 {} {}", hash as u8, hex(&b)), sl.clone()); c.tags = tags.clone(); c.tags.push("skip1".into());
+            let mut c = Case::new(read_cmd(true, hash, &b), sl.clone()); c.tags = tags.clone(); c.tags.push("skip1".into());
             match (&gs, &g) { (Some(gs), Some(g)) => {
                 if start_json(&gs.start) != start_json(&g.start) || gs.start.bytes != g.start.bytes { c.fail("C10", "skip-frames: Game Start differs from full parse"); }
                 if end_json(&gs.end) != end_json(&g.end) || gs.end.as_ref().map(|e| &e.bytes) != g.end.as_ref().map(|e| &e.bytes) { c.fail("C10", "skip-frames: Game End differs from full parse"); }
@@ -272,7 +291,7 @@ fn roll(rng: &mut Rng, ctx: &mut Ctx) {
 
 fn arrow(rng: &mut Rng, ctx: &mut Ctx) {
     use peppi::game::port_occupancy;
-    let go = GenOpts { max_frames: if ctx.thorough { 30 } else { 8 }, newer: false };
+    let go = GenOpts { max_frames: if ctx.thorough { 30 } else { 8 }, newer: false, force: None };
     for k in 0..ctx.n {
         let (r, mut tags) = gen_replay(rng, k, &go);
         if r.frames.is_empty() { continue; }
@@ -310,10 +329,10 @@ pub fn canon_start(g: &peppi::game::Start, block: &[u8], c: &mut Vec<(String, St
     for (i, p) in g.players.iter().enumerate() {
         let port = p.port as usize; let pv = &mut v["players"][i];
         pv["offense_ratio"] = Value::String(format!("f:{}", p.offense_ratio.to_bits())); pv["defense_ratio"] = Value::String(format!("f:{}", p.defense_ratio.to_bits())); pv["model_scale"] = Value::String(format!("f:{}", p.model_scale.to_bits()));
-        if let Some(t) = &p.name_tag { let sl = until_nul(&block[352 + 16 * port..352 + 16 * port + 16]); if sjis(sl).as_deref() != Some(t.0.as_str()) { c.push(("C19".into(), format!("port {} name_tag is not the Shift-JIS decoding of the field up to its first NUL", port))); } pv["name_tag"] = Value::String(format!("sjis:{}", hex(sl))); }
+        if let Some(t) = &p.name_tag { let sl = until_nul(&block[352 + 16 * port..352 + 16 * port + 16]); if sjis(sl).as_deref() != Some(t.0.as_str()) { c.push(("C19".into(), format!("port {} name_tag is not the Shift-JIS decoding of the field up to its first NUL", port))); c.push(("C05".into(), format!("port {} name_tag differs from the value at its spec offset", port))); } pv["name_tag"] = Value::String(format!("sjis:{}", hex(sl))); }
         if let Some(n) = &p.netplay {
             let a = until_nul(&block[420 + 31 * port..420 + 31 * port + 31]); let cc = until_nul(&block[544 + 10 * port..544 + 10 * port + 10]);
-            if sjis(a).as_deref() != Some(n.name.0.as_str()) || sjis(cc).as_deref() != Some(n.code.0.as_str()) { c.push(("C19".into(), format!("port {} netplay name/code is not the Shift-JIS decoding of the field up to its first NUL", port))); }
+            if sjis(a).as_deref() != Some(n.name.0.as_str()) || sjis(cc).as_deref() != Some(n.code.0.as_str()) { c.push(("C19".into(), format!("port {} netplay name/code is not the Shift-JIS decoding of the field up to its first NUL", port))); c.push(("C05".into(), format!("port {} netplay name/code differs from the value at its spec offset", port))); }
             pv["netplay"]["name"] = Value::String(format!("sjis:{}", hex(a))); pv["netplay"]["code"] = Value::String(format!("sjis:{}", hex(cc)));
             if let Some(u) = &n.suid { pv["netplay"]["suid"] = Value::String(format!("utf8:{}", hex(u.as_bytes()))); }
         }
@@ -367,13 +386,23 @@ pub fn check_start_fields(s: &peppi::game::Start, b: &[u8], c: &mut Vec<(String,
 fn start(rng: &mut Rng, ctx: &mut Ctx) {
     let classes = version_classes();
     for k in 0..ctx.n {
-        let v = classes[k % classes.len()];
+        let v = if k % 3 == 2 { [(3u8,9u8,0u8),(3,11,0),(3,12,0),(3,14,0),(3,16,0),(3,10,4),(3,13,0),(1,3,0)][(k / 3) % 8] } else { classes[k % classes.len()] };
         let mut pl = vec![]; for p in 0..4u8 { pl.push((p, (rng.next() % 5) as u8, (rng.next() % 30) as u8)); }
         let mut b = start_block(v, &pl, rng);
         if k % 4 == 0 { b[12] = 0; } // teams off
-        if b.len() >= 352 { for p in 0..4 { for j in 0..2 { let val = [0u32, 1, 2, 3][(rng.next() % 7).min(3) as usize % 4]; let vv = if rng.next() % 9 == 0 { val } else { val % 3 }; b[320 + 8 * p + 4 * j..320 + 8 * p + 4 * j + 4].copy_from_slice(&vv.to_be_bytes()); } } }
-        if b.len() >= 416 { for p in 0..4 { let l = (rng.next() % 17) as usize; for j in 0..l.min(16) { b[352 + 16 * p + j] = match rng.next() % 8 { 0 => 0x82, 1 => 0xa0, 2 => 0xb1, 3 => 0, 4 => 0x81, 5 => 0x40 + (rng.next() % 60) as u8, _ => 0x41 + (rng.next() % 26) as u8 }; } } }
-        if b.len() >= 584 { for p in 0..4 { let l = (rng.next() % 32) as usize; for j in 0..l.min(31) { b[420 + 31 * p + j] = if rng.next() % 12 == 0 { 0 } else { 0x30 + (rng.next() % 40) as u8 }; } for j in 0..(rng.next() % 11) as usize { b[544 + 10 * p + j.min(9)] = if rng.next() % 12 == 0 { 0x83 } else { 0x41 + (rng.next() % 26) as u8 }; } } }
+        if b.len() >= 352 { let bad_ucf = k % 10 == 9; for p in 0..4 { for j in 0..2 { let vv: u32 = if bad_ucf && rng.next() % 4 == 0 { [3u32, 256, u32::MAX][(rng.next() % 3) as usize] } else { (rng.next() % 3) as u32 }; b[320 + 8 * p + 4 * j..320 + 8 * p + 4 * j + 4].copy_from_slice(&vv.to_be_bytes()); } } }
+        // name fields: mostly valid Shift-JIS (ASCII, two-byte kana / punctuation, half-width kana), a NUL somewhere, garbage after it;
+        // one case in eight gets an invalid sequence in one field
+        let poison = if k % 8 == 7 { Some((rng.next() % 12) as usize) } else { None };
+        let mut fill = |b: &mut Vec<u8>, off: usize, width: usize, slot: usize, rng: &mut Rng| {
+            let toks: [&[u8]; 9] = [b"A", b"z", b"7", &[0x82, 0xa0], &[0x83, 0x41], &[0xb1], &[0x81, 0x49], &[0x81, 0x40], b"#"];
+            let target = (rng.next() as usize) % (width + 1); let mut j = 0;
+            while j < target { let t = toks[(rng.next() % 9) as usize]; if j + t.len() > target { break; } b[off + j..off + j + t.len()].copy_from_slice(t); j += t.len(); }
+            if poison == Some(slot) && width >= 2 { let at = if j >= 2 { (rng.next() as usize) % (j - 1) } else { 0 }; let bad: &[u8] = [&[0x82u8, 0x20][..], &[0xff, 0x41], &[0x81, 0x7f]][(rng.next() % 3) as usize]; b[off + at..off + at + 2].copy_from_slice(bad); j = j.max(at + 2); }
+            if j < width { b[off + j] = 0; for x in j + 1..width { b[off + x] = (rng.next() >> 8) as u8; } }
+        };
+        if b.len() >= 416 { for p in 0..4 { fill(&mut b, 352 + 16 * p, 16, p, rng); } }
+        if b.len() >= 584 { for p in 0..4 { fill(&mut b, 420 + 31 * p, 31, 4 + p, rng); fill(&mut b, 544 + 10 * p, 10, 8 + p, rng); } }
         if b.len() >= 700 { for p in 0..4 { for j in 0..(rng.next() % 29) as usize { b[584 + 29 * p + j] = 0x61 + (rng.next() % 26) as u8; } } }
         if b.len() >= 701 { b[700] = (rng.next() % 3) as u8 % 2; }
         if b.len() >= 760 { for j in 0..(rng.next() % 51) as usize { b[701 + j] = 0x30 + (rng.next() % 10) as u8; } }
@@ -383,7 +412,7 @@ fn start(rng: &mut Rng, ctx: &mut Ctx) {
         let file = encode(&r);
         let mut fails = vec![];
         let res = std::panic::catch_unwind(std::panic::AssertUnwindSafe(|| slippi::read(Cursor::new(&file), None).map(|g| { check_start_fields(&g.start, &b, &mut fails); canon_start(&g.start, &b, &mut fails) })));
-        let line = match res { Err(_) => "panic".to_string(), Ok(Err(_)) => "err".to_string(), Ok(Ok(j)) => format!("ok {}", j) };
+        let line = match res { Err(_) => "panic".to_string(), Ok(Err(e)) => format!("err {}", e), Ok(Ok(j)) => format!("ok {}", j) };
         let mut sj_ok = true;
         for p in 0..4 {
             if b.len() >= 416 { sj_ok &= sjis(until_nul(&b[352 + 16 * p..352 + 16 * p + 16])).is_some(); }
@@ -396,10 +425,10 @@ fn start(rng: &mut Rng, ctx: &mut Ctx) {
     }
     // Game End blocks
     for k in 0..(ctx.n / 3).max(30) {
-        let len = [1usize, 2, 6, 6, 2, 1, 7, 9, 3, 4, 5][k % 11];
-        let mut e: Vec<u8> = vec![[0u8, 1, 2, 3, 7, 4, 255][(rng.next() % 7) as usize]];
-        if len >= 2 { e.push([255u8, 0, 1, 2, 3, 4, 128][(rng.next() % 7) as usize]); }
-        for _ in 2..len { e.push([255u8, 0, 1, 2, 3, 4, 250][(rng.next() % 7) as usize]); }
+        let len = [1usize, 2, 6, 6, 2, 1, 7, 9, 6, 2, 6, 3, 6, 2, 1, 4, 6, 5][k % 18];
+        let mut e: Vec<u8> = vec![[0u8, 1, 2, 3, 7, 0, 1, 2, 3, 7, 2, 4, 255][(rng.next() % 13) as usize]];
+        if len >= 2 { e.push([255u8, 0, 1, 2, 3, 255, 0, 1, 2, 3, 4, 128][(rng.next() % 12) as usize]); }
+        for _ in 2..len { e.push([255u8, 0, 1, 2, 3, 255, 0, 1, 2, 3, 255, 0, 1, 2, 3, 4, 250][(rng.next() % 17) as usize]); }
         let v: V = if len >= 6 { (3, 16, 0) } else if len >= 2 { (3, 0, 0) } else { (1, 0, 0) };
         let mut r = simple(v, &[(0, 0, 2)], 0, &[], rng); r.end = Some(e.clone()); r.metadata = None;
         let file = encode(&r);
@@ -477,7 +506,7 @@ fn peppi_suite(rng: &mut Rng, ctx: &mut Ctx) {
     use std::io::Read;
     use arrow2::io::ipc::read::{read_stream_metadata, StreamReader, StreamState};
     let comps = [None, Some(arrow2::io::ipc::write::Compression::LZ4), Some(arrow2::io::ipc::write::Compression::ZSTD)];
-    let go = GenOpts { max_frames: if ctx.thorough { 25 } else { 7 }, newer: false };
+    let go = GenOpts { max_frames: if ctx.thorough { 25 } else { 7 }, newer: false, force: None };
     for k in 0..ctx.n {
         let (r, tags) = gen_replay(rng, k, &go);
         let b = encode(&r);
